@@ -11,7 +11,8 @@ Clauses (Fail.clause):
   retrievable                collection.get_member(obj.path) is obj for every object and alias in the tree
   lookup-forms               dotted == tuple == chained lookup, get_member and [], from every ancestor
   aliases-follow-replacement aliases whose target was the object replaced through set_member now target the replacement
-  alias-registered           every resolved alias (whose target is an object) satisfies target.aliases[alias.path] is alias
+  alias-registered           every resolved alias satisfies target.aliases[alias.path] is alias (for an alias -> alias chain: the
+                             registry of the final target, once every link is resolved)
   no-self-target             alias.target = alias / = something at the alias's own path raises CyclicAliasError;
                              no alias ever targets itself
   missing-path               an operation on a path that does not exist raises KeyError and changes nothing
@@ -24,7 +25,7 @@ import time
 
 from vp.common.harness import Fail
 from vp.gen import c16_ops, c16_world
-from vp.gen.c16_world import K_CLOBBER, K_STALE, K_TOPLEVEL, run_history
+from vp.gen.c16_world import K_CLOBBER, K_INNER, K_STALE, K_TOPLEVEL, run_history
 
 ID = "C16"
 LEVEL = "exploration"
@@ -41,7 +42,7 @@ ASSUMPTIONS = [
     "the tree is a tree: a value is inserted at one place at a time (fresh object, or a subtree detached earlier by delete/replace)",
     "the key's last part equals the value's name (otherwise obj.path cannot lead back to the object); the collection holds modules only, classes hold no modules, functions/attributes hold nothing",
     "mutation paths go through modules/classes only: setting or deleting *through* an alias or a function is not generated",
-    "alias registry clause is asserted for aliases whose immediate target is an object; `aliases` of an alias-typed target is a proxy to its final target and nothing is stated about chains",
+    "alias registry clause: for an alias whose target is an alias, `target.aliases` is the registry of the chain's final target; it is evaluated when every link is already resolved (links followed by identity, nothing is resolved by the check, rings by path are skipped exactly as Alias.final_target rejects them)",
     "the reference model mirrors one Griffe-specific behaviour: set_member replacing a module by a module with a different file path merges regular+stubs (.pyi); the discarded stubs module is never re-inserted; an alias value that would trigger that merge is not generated",
     "outcomes of alias.resolve_target() are not predicted (C06's subject); AliasResolutionError/CyclicAliasError are its allowed exceptions",
 ]
@@ -134,12 +135,27 @@ def _is_clobbered(case, fail: Fail) -> bool:
     return bool(fail.clause == "alias-registered" and d.get("keys") == [] and d.get("occupant_detached"))
 
 
-KNOWN = {K_STALE: _is_stale_key, K_TOPLEVEL: _is_toplevel_parent, K_CLOBBER: _is_clobbered}
+def _is_inner_retarget(case, fail: Fail) -> bool:
+    """alias-registered fails for an alias *chain* right after one of its inner links was re-targeted explicitly
+    (`inner.target = obj`, or `inner.resolve_target()` on an already resolved alias, which looks its path up again):
+    the outer aliases were registered with the old final target and are not moved.  Third route: set_member re-targets
+    every alias listed in the replaced object's `aliases`, including stale entries of aliases re-targeted elsewhere."""
+    d = fail.detail or {}
+    links = d.get("links") or []
+    if fail.clause != "alias-registered" or not d.get("chain"):
+        return False
+    if fail.kind in ("retarget:obj", "resolve_target"):
+        return bool(d.get("retargeted") and d["retargeted"] in links[1:])
+    # set_member re-targets stale entries of old.aliases too (aliases that were re-targeted elsewhere in the meantime)
+    return fail.kind.startswith("set_member:") and any(h in links[1:] for h in d.get("hijacked") or ())
+
+
+KNOWN = {K_INNER: _is_inner_retarget, K_STALE: _is_stale_key, K_TOPLEVEL: _is_toplevel_parent, K_CLOBBER: _is_clobbered}
 
 
 # ----------------------------------------------------------------------------- search
 def _steer(ctx) -> list:
-    return sorted(s for s in (K_STALE, K_TOPLEVEL, K_CLOBBER) if s in ctx.known)
+    return sorted(s for s in (K_STALE, K_TOPLEVEL, K_CLOBBER, K_INNER) if s in ctx.known)
 
 
 def strategy(ctx):
